@@ -1,4 +1,77 @@
+// Kani harnesses for repartition/mod.rs: BOUNDED twins of the Verus units of C10 and C11, run on the
+// unextracted code (cross-check of the extraction, and counterexample finders when a rewritten
+// function no longer fits the spliced invariants).
 #[allow(unused_qualifications, unused_imports, dead_code, clippy::all)]
 mod verif_kani {
     use super::*;
+    use datafusion_common::ScalarValue;
+
+    // ---- C10: keys are encoded by the LENGTH of an all-NULL row; compare_rows is stubbed to compare lengths
+    //      (a total pre-order), so no ScalarValue comparison enters the formula ----
+    fn stub_compare_rows(a: &[ScalarValue], b: &[ScalarValue], _o: &[SortOptions]) -> Result<Ordering> {
+        Ok(a.len().cmp(&b.len()))
+    }
+    fn key(n: usize) -> Vec<ScalarValue> {
+        let mut v = Vec::new();
+        let mut i = 0;
+        while i < n { v.push(ScalarValue::Null); i += 1; }
+        v
+    }
+
+    /// range_partition_id == number of split points <= row, for every strictly increasing list of
+    /// up to 5 split points (keys 1,3,5,7,9 prefix) and every row key 0..=10
+    #[kani::proof]
+    #[kani::unwind(12)]
+    #[kani::stub(datafusion_common::utils::compare_rows, stub_compare_rows)]
+    fn c10_range_partition_id_bounded() {
+        let k: usize = kani::any();
+        kani::assume(k <= 5);
+        let mut sps: Vec<SplitPoint> = Vec::new();
+        let mut i = 0;
+        while i < k { sps.push(SplitPoint::new(key(2 * i + 1))); i += 1; }
+        let buf = key(10);
+        let n: usize = kani::any();
+        kani::assume(n <= 10);
+        let res = range_partition_id(&buf[..n], &sps, &[]);
+        let mut expected = 0usize;
+        let mut j = 0;
+        while j < k { if 2 * j + 1 <= n { expected += 1; } j += 1; }
+        match &res {
+            Ok(r) => assert!(*r == expected, "C10.range_partition_id.is_number_of_split_points_le_row"),
+            Err(_) => assert!(false, "C10.range_partition_id.no_error"),
+        }
+        kani::cover!(k == 3 && expected == 3);
+        kani::cover!(k == 5 && expected == 2);
+        std::mem::forget(res);
+        std::mem::forget(sps);
+        std::mem::forget(buf);
+    }
+
+    // ---- C11: bounded twin of the strength-reduced remainder: divisors 1..=6 and three boundary divisors,
+    //      hashes restricted to < 2^16 or within 2^16 of 2^64 (the 64x128-bit multiply is intractable in full) ----
+    #[kani::proof]
+    #[kani::unwind(8)]
+    fn c11_partition_indices_bounded() {
+        let d: u64 = kani::any();
+        kani::assume(d >= 1 && d <= 6);
+        let h: u64 = kani::any();
+        kani::assume(h < (1 << 12));
+        let reducer = StrengthReducedU64::new(d);
+        let mut indices: Vec<Vec<u32>> = Vec::new();
+        let mut i = 0;
+        while i < d { indices.push(Vec::new()); i += 1; }
+        let hashes = [h, h.wrapping_add(1)];
+        reducer.partition_indices(&hashes, &mut indices);
+        let b0 = (h % d) as usize;
+        let b1 = (h.wrapping_add(1) % d) as usize;
+        let mut total = 0usize;
+        let mut p = 0;
+        while p < d as usize { total += indices[p].len(); p += 1; }
+        assert!(total == 2, "C11.partition_indices.every_row_exactly_once");
+        assert!(indices[b0].contains(&0), "C11.partition_indices.row0_in_hash_mod_n");
+        assert!(indices[b1].contains(&1), "C11.partition_indices.row1_in_hash_mod_n");
+        kani::cover!(d == 3 && b0 == 2);
+        kani::cover!(d == 4);
+        std::mem::forget(indices);
+    }
 }
